@@ -838,7 +838,7 @@ func (x *Exec) guaranteeObligations(st *State, c *callCtx, rec *YieldRec, idx in
 		pk1 := App(SStr, "val", colSel("callbacks", "promise_id", cb1, SOptS))
 		goal := App(SBool, "xguar.C05", cb0, cb1, g.rowAt(st, rec.Pre["promises"], pk0), g.rowAt(st, rec.Post["promises"], pk0),
 			g.rowAt(st, rec.Post["promises"], pk1), g.rowAt(st, rec.Pre["tasks"], k), g.rowAt(st, rec.Post["tasks"], k))
-		x.oblige(st, "guarantee", "registrations of a promise that leaves pending become tasks and are removed in the same transaction (xguar.C05)", goal, c.common.Pos(), []string{"C05"})
+		x.oblige(st, "guarantee", "registrations of a promise that leaves pending become tasks and are removed in the same transaction (xguar.C05)", goal, c.common.Pos(), []string{"C05", "C06"})
 	}
 	if _, ok := x.prog.spec.sigs["xguar.C08"]; ok && (changed("promises") || changed("tasks")) {
 		k := x.sym.Named(fmt.Sprintf("x.k0.C08.%d", idx), SStr)
@@ -846,7 +846,12 @@ func (x *Exec) guaranteeObligations(st *State, c *callCtx, rec *YieldRec, idx in
 		t1 := g.rowAt(st, rec.Post["tasks"], k)
 		pk := App(SStr, "val", colSel("tasks", "root_promise_id", t0, SOptS))
 		goal := App(SBool, "xguar.C08", t0, t1, g.rowAt(st, rec.Pre["promises"], pk), g.rowAt(st, rec.Post["promises"], pk))
-		x.oblige(st, "guarantee", "when a promise leaves pending all of its active tasks are completed in the same transaction (xguar.C08)", goal, c.common.Pos(), []string{"C08"})
+		x.oblige(st, "guarantee", "when a promise leaves pending all of its active tasks are completed in the same transaction (xguar.C08)", goal, c.common.Pos(), []string{"C08", "C06"})
+		if _, ok := x.prog.spec.sigs["xguar.C08.born"]; ok {
+			pk1 := App(SStr, "val", colSel("tasks", "root_promise_id", t1, SOptS))
+			goal3 := App(SBool, "xguar.C08.born", t0, t1, g.rowAt(st, rec.Pre["promises"], pk1), g.rowAt(st, rec.Post["promises"], pk1))
+			x.oblige(st, "guarantee", "an invocation task is created only in the transaction that creates its promise (xguar.C08.born)", goal3, c.common.Pos(), []string{"C08", "C06"})
+		}
 		if _, ok := x.prog.spec.sigs["xguar.C08.unclaimed"]; ok {
 			goal2 := App(SBool, "xguar.C08.unclaimed", t0, t1, g.rowAt(st, rec.Pre["promises"], pk), g.rowAt(st, rec.Post["promises"], pk))
 			x.oblige(st, "guarantee", "an unclaimed task is completed only together with its root promise or as a dispatched notification (xguar.C08.unclaimed)", goal2, c.common.Pos(), []string{"C05", "C08"})
